@@ -300,6 +300,15 @@ func runC04(c *fw.Ctx) {
 			text = strings.ReplaceAll(text, "\n", "\r\n")
 		case "tabs":
 			text = strings.ReplaceAll(text, "  ", "\t")
+			// free text is content: the expected descriptions are re-indented the same way
+			e2 := exp{}
+			for k, v := range e {
+				if strings.HasSuffix(k, ".description") && v != absent {
+					v = strings.ReplaceAll(v, "  ", "\t")
+				}
+				e2[k] = v
+			}
+			e = e2
 		case "comments":
 			r := doc.Render(nodes, doc.DefaultStyle())
 			var b strings.Builder
